@@ -16,4 +16,72 @@ theorem sumTo_congr (n : Nat) (f g : Nat → Rat) (h : ∀ l, l < n → f l = g 
       simp only [sumTo]
       rw [ih (fun l hl => h l (Nat.lt_succ_of_lt hl)), h n (Nat.lt_succ_self n)]
 
+
+/-! ### permutations -/
+
+theorem permAux_perm : ∀ (nc : Nat) (rest : List Nat) (m : Nat), rest.length = nc →
+    (permAux nc rest m).Perm rest
+  | 0, rest, m, h => by
+      have : rest = [] := List.length_eq_zero_iff.mp h
+      subst this; simp [permAux]
+  | nc + 1, rest, m, h => by
+      have hk : m % (nc + 1) < rest.length := by rw [h]; exact Nat.mod_lt _ (Nat.succ_pos _)
+      have hlen : (rest.eraseIdx (m % (nc + 1))).length = nc := by
+        rw [List.length_eraseIdx_of_lt hk]; omega
+      have ih := permAux_perm nc (rest.eraseIdx (m % (nc + 1))) (m / (nc + 1)) hlen
+      simp only [permAux]
+      have hget : rest.getD (m % (nc + 1)) 0 = rest[m % (nc + 1)] := by
+        simp [List.getD_eq_getElem?_getD, hk]
+      rw [hget]
+      exact (List.Perm.cons _ ih).trans (List.getElem_cons_eraseIdx_perm hk)
+
+/-! ### insertion sort -/
+
+theorem insertLe_perm (v : Rat) : ∀ l : List Rat, (insertLe v l).Perm (v :: l)
+  | [] => by simp [insertLe]
+  | a :: l => by
+      simp only [insertLe]
+      split_ifs
+      · exact List.Perm.refl _
+      · exact ((insertLe_perm v l).cons a).trans (List.Perm.swap v a l)
+
+theorem sortLe_perm : ∀ x : List Rat, (sortLe x).Perm x
+  | [] => by simp [sortLe]
+  | a :: l => by
+      have : sortLe (a :: l) = insertLe a (sortLe l) := rfl
+      rw [this]
+      exact (insertLe_perm a _).trans ((sortLe_perm l).cons a)
+
+theorem insertLe_sorted (v : Rat) : ∀ l : List Rat, l.Pairwise (· ≤ ·) → (insertLe v l).Pairwise (· ≤ ·)
+  | [], _ => by simp [insertLe]
+  | a :: l, h => by
+      simp only [insertLe]
+      split_ifs with hva
+      · refine List.Pairwise.cons ?_ h
+        intro b hb
+        rcases List.mem_cons.mp hb with rfl | hb
+        · exact hva
+        · exact le_trans hva (List.rel_of_pairwise_cons h hb)
+      · have hav : a ≤ v := le_of_lt (not_le.mp hva)
+        refine List.Pairwise.cons ?_ (insertLe_sorted v l (List.Pairwise.of_cons h))
+        intro b hb
+        have := (insertLe_perm v l).subset hb
+        rcases List.mem_cons.mp this with rfl | hb'
+        · exact hav
+        · exact List.rel_of_pairwise_cons h hb'
+
+theorem sortLe_sorted : ∀ x : List Rat, (sortLe x).Pairwise (· ≤ ·)
+  | [] => by simp [sortLe]
+  | a :: l => by
+      have : sortLe (a :: l) = insertLe a (sortLe l) := rfl
+      rw [this]
+      exact insertLe_sorted a _ (sortLe_sorted l)
+
+theorem sortLe_eq_of_perm {x y : List Rat} (h : x.Perm y) : sortLe x = sortLe y := by
+  apply List.Perm.eq_of_pairwise (le := (· ≤ ·))
+  · intro a b _ _ hab hba; exact le_antisymm hab hba
+  · exact sortLe_sorted x
+  · exact sortLe_sorted y
+  · exact ((sortLe_perm x).trans h).trans (sortLe_perm y).symm
+
 end NipyVerif.C16
